@@ -93,7 +93,11 @@ func devMain(args []string) {
 			if d.Kind == "int" {
 				fmt.Printf("    %s = %d (%#x)\n", d.Name, int64(d.Val), d.Val)
 			} else {
-				fmt.Printf("    %s = len %d %x\n", d.Name, d.Len, d.Bytes)
+				b := d.Bytes
+				if len(b) > 64 {
+					b = b[:64]
+				}
+				fmt.Printf("    %s = len %d %x\n", d.Name, d.Len, b)
 			}
 		}
 		fmt.Printf("    stack: %v\n", v.Stack)
